@@ -1,10 +1,21 @@
 /* C17 parameters re-extracted from the headers on every run: the size of the
- * format buffer of the log handlers (char buf[MUGGLE_LOG_MSG_MAX_LEN]). */
+ * format buffer of the log handlers (char buf[MUGGLE_LOG_MSG_MAX_LEN]), the
+ * rotate unit codes and the two error codes the handler functions return. */
 #include <stdio.h>
 #include "muggle/c/log/log_msg.h"
+#include "muggle/c/log/log_file_time_rot_handler.h"
+#include "muggle/c/base/err.h"
+#include "muggle/c/base/macro.h"
 int main(void)
 {
 	char buf[MUGGLE_LOG_MSG_MAX_LEN];
 	printf("limit %ld\n", (long)sizeof(buf));
+	printf("unit_sec %d\n", (int)MUGGLE_LOG_TIME_ROTATE_UNIT_SEC);
+	printf("unit_min %d\n", (int)MUGGLE_LOG_TIME_ROTATE_UNIT_MIN);
+	printf("unit_hour %d\n", (int)MUGGLE_LOG_TIME_ROTATE_UNIT_HOUR);
+	printf("unit_day %d\n", (int)MUGGLE_LOG_TIME_ROTATE_UNIT_DAY);
+	printf("max_path %d\n", (int)MUGGLE_MAX_PATH);
+	printf("ok %d\n", (int)MUGGLE_OK);
+	printf("err_sys_call %d\n", (int)MUGGLE_ERR_SYS_CALL);
 	return 0;
 }
